@@ -94,6 +94,23 @@ CLAIMED = {
               "fractional hour/minute forms of the full point are the float regime (known finding F11)."),
         technique="Coq proof (loop invariants for unit stepping; specification proved least) + correspondence with per-call timeout + Spec oracle",
         design="7 C20"),
+    "C10": dict(
+        text=("Theorems (Props/C10.v) about the executable model of Duration.__str__ and DurationParser.parse (three regexes incl. "
+              "greedy backtracking time groups, sign factor, date-time-like fallback): for every single-signed duration in the "
+              "printer's exact domain (ints up to CPython's 4300-digit limit, hours/minutes/seconds integers or finite decimals of "
+              "<= 15 significant digits, >= 1e-4; week form) parse(str(d)) exists, == d, equals d component-wise, and str is a "
+              "fixpoint; closed-form integer case; parse(render c) = make c for every well-formed designator string (digit "
+              "strings with leading zeros, comma/point decimals, leading '-', bare P/PT/trailing T, PnW); the date-time-like "
+              "spelling (calendar/ordinal, basic/extended) parses to the same duration as its designator spelling. The regex "
+              "pattern strings and the time point tables the fallback uses are regenerated from the package and compared with "
+              "the strings the matcher was written for (vm_compute). Correspondence on round trips, well-formed strings in the "
+              "three notations and ~20k mutated/backtracking strings; oracle: eq, fixpoint, designator values, alt == designator."),
+        note=("Floats are ideal rationals: values needing more than 15 significant digits, exponent notation (<1e-4), non-ASCII "
+              "digits, float() spellings such as 1e5/1_0 and most non-complete date-time-like forms are explicit UNMODELLED "
+              "results, excluded from theorems and comparison. Int h/m/s beyond 2^53 and totals >= 2^53 s break == in the "
+              "implementation (float rounding; notes/C10_REPORT.md)."),
+        technique="Coq proof (printer/parser inverse incl. decimal long division, backtracking matcher lemmas) + reflection on regenerated regex strings + model/implementation correspondence + oracle",
+        design="7 C10"),
     "C11": dict(
         text=("Theorems (Props/C11.v) over arbitrary rational components: value of a sum, commutativity, associativity, identity, inverse, "
               "n*d = n-fold sum, a-b = a+(-1)b; == is an equivalence, exact durations equal iff lengths equal, general characterisation "
